@@ -202,29 +202,53 @@ def count_sections(prog, f, crate, seen=None, skip=()):
 
 
 def clause_snapshot_single_guard(prog, rep):
+    """the function that builds the group snapshot reads the live state under exactly one acquisition of the state lock — its own
+    read guard, with every read of the live maps inside that guard's live range, and no further acquisition through a callee
+    (e.g. a public getter that locks again after the guard was released)"""
     fs = prog.find(adt="MdkMemoryStorage", name="create_group_snapshot", trait="MdkStorageProvider")
     inner = prog.adt("MdkMemoryStorageInner")
     names = set(fd["name"] for fd in inner["variants"][0]["fields"])
+    acq = Acquires(prog)
+    n = 0
     for f in fs:
-        for p in prog.extent(f):
+        for p in sorted(prog.extent(f)):
             g = prog.fns.get(p)
             if not g or g.crate != "mdk_memory_storage" or g.is_closure():
                 continue
+            if not any(True for _ in g.aggregates("GroupScopedSnapshot")):
+                continue
+            n += 1
             acqs = [c for c in g.live_calls() if is_acq(c) and c.args and "p" in c.args[0]]
-            reads_inner = set()
-            for bb, s in g.stmts():
-                for o in s.get("o", []):
-                    if "p" in o:
-                        reads_inner |= set(e[1:] for e in o["p"][1:] if isinstance(e, str) and e.startswith(".") and e[1:] in names)
-            if len(reads_inner) >= 5:
-                rep.check(len(acqs) == 1, "snapshot-one-instant", g.label(), "the %d group-scoped maps are copied under a single read guard" % len(reads_inner),
-                          "the snapshot copies the maps under %d separate lock acquisitions: a concurrent writer can slip in between" % len(acqs), g.loc())
-                if acqs:
-                    region, _ = live_region(g, acqs[0])
-                    outside = [bb for bb, s in g.stmts() if bb not in region and bb != acqs[0].bb and
-                               any("p" in o and any(isinstance(e, str) and e[1:] in names for e in o["p"][1:]) for o in s.get("o", []))]
-                    rep.check(not outside, "snapshot-one-instant", g.label() + "/all-reads-under-guard", "every read of the live maps happens while the guard is alive",
-                              "live maps are read outside the guard's live range (blocks %s)" % outside[:5], g.loc())
+            # acquisitions hidden in callees (workspace functions that lock the same state)
+            indirect = [c for c in g.live_calls() if not is_acq(c) and any(t.crate == "mdk_memory_storage" and acq.fn(t.path) for t in prog.call_targets(c))]
+            rep.check(len(acqs) == 1 and not indirect, "snapshot-one-instant", g.label(),
+                      "the snapshot is assembled under a single read guard",
+                      "the snapshot is assembled under %d lock acquisitions (%d direct, %d through %s): a concurrent writer or restore can slip in "
+                      "between, so the snapshot mixes two states" % (len(acqs) + len(indirect), len(acqs), len(indirect), sorted(set(c.name for c in indirect))), g.loc())
+            if acqs:
+                region, _ = live_region(g, acqs[0])
+                outside = [bb for bb, s in g.stmts() if bb not in region and bb != acqs[0].bb and
+                           any("p" in o and any(isinstance(e, str) and e[1:] in names for e in o["p"][1:]) for o in s.get("o", []))]
+                rep.check(not outside, "snapshot-one-instant", g.label() + "/all-reads-under-guard", "every read of the live maps happens while the guard is alive",
+                          "live maps are read outside the guard's live range (blocks %s)" % outside[:5], g.loc())
+    rep.floor("snapshot-one-instant", "functions building a GroupScopedSnapshot", n, 1)
+
+
+def clause_manager_sections(prog, rep):
+    """the snapshot manager's bookkeeping: what a function learns under the manager mutex (is the group hydrated? how long is the queue?)
+    must be acted on under the same guard — each manager function takes the mutex at most once itself"""
+    mg = [f for f in prog.nontest_fns(("mdk_core",)) if last_seg(f.self_adt) == "EpochSnapshotManager" and not f.is_closure()]
+    n = 0
+    for f in mg:
+        acqs = [c for c in f.live_calls() if is_acq(c)]
+        if not acqs:
+            continue
+        n += 1
+        rep.check(len(acqs) == 1, "one-critical-section", "manager/%s" % f.label(),
+                  "the manager mutex is taken once in this function",
+                  "the manager mutex is taken %d times in %s: a check made under the first guard (hydrated? retention reached?) is acted on under "
+                  "a later one, so concurrent first uses interleave (double hydration, wrong prune)" % (len(acqs), f.label()), f.loc())
+    rep.floor("one-critical-section", "snapshot-manager functions taking the mutex", n, 4)
 
 
 def clause_layering(prog, rep):
@@ -270,6 +294,7 @@ def run(ctx, rep):
     rep.clause("C19.5 witnesses: both storages and MDK over them are Send + Sync (compile-pass, with a compile-fail control)")
     rep.not_decided = "linearizability under real interleavings, torn updates inside SQLite, cross-process first-open races"
     control = clause_no_nesting(prog, rep)
+    clause_manager_sections(prog, rep)
     rep.check(control, "positive-control", "nested-locks-witness", "the nesting rule reports the witness function that locks b while holding a",
               "the positive control (nested locks) was NOT reported: the lock rule is blind")
     clause_sections(prog, rep)
